@@ -437,6 +437,9 @@ def tasks_for(tier, seed):
             if not set(ags) <= set(agents):
                 continue
             for flag in (True, False):
+                # the agent list in the caller's order, which is not always the alphabetical one: slot i belongs to agents[i]
+                k = len(tasks) % 3
+                agents = list(agents[k:]) + list(agents[:k]) if len(agents) == 3 else (list(reversed(agents)) if k else list(agents))
                 tasks.append({"kind": "convert", "plan": p, "agents": agents, "flag": flag, "cap": 9 if tier == "quick" else 12,
                               "max_paths": 3000 if tier == "quick" else 30000, "via_file": len(tasks) % 3 == 0})
     for shape in ([([1, 1], "a1")], [([2], "a2"), ([1, 1], "a1")], [([1, 1, 1], "a1")]):
